@@ -11,6 +11,7 @@ from __future__ import annotations
 
 import errno
 import os
+import random
 import pathlib
 import re
 import shutil
@@ -632,6 +633,39 @@ def run_shard(ctx):
         if ctx.out_of_time():
             break
     ctx.subrun("sphinx_link_matrix", forms=len(LINK_FORMS), destinations=len(HOSTILE_DEST), exhaustive=not ctx.out_of_time())
+    # Sphinx' own directives (and those of its domains) x their options x awkward values through the Sphinx front end, several constructs per build
+    try:
+        from .c08 import collect_classes
+
+        sph = {k: v for k, v in collect_classes().items() if k.startswith(("sphinx:", "domain:")) and isinstance(v, type)}
+    except Exception:  # noqa: BLE001
+        sph = {}
+    combos = []
+    for key in sorted(sph):
+        dname = key.split(":", 1)[1] if key.startswith("sphinx:") else key.split(":", 1)[1]
+        dcls = sph[key]
+        if dname in ("restructuredtext-test-directive",):
+            continue
+        for oname in sorted(x for x in (getattr(dcls, "option_spec", None) or {}) if isinstance(x, str)):
+            for v in OPTION_VALUES:
+                combos.append((dname, dcls, oname, v))
+    Rc = random.Random(ctx.seed * 1000 + 17)
+    Rc.shuffle(combos)
+    mine = combos[ctx.shard::ctx.nshards][: (36 if quick else 3000)]
+    for j in range(0, len(mine), 6):
+        parts = []
+        for dname, dcls, oname, v in mine[j:j + 6]:
+            arg = {"image": "i.png", "figure": "i.png", "include": "other.md", "literalinclude": "data.txt", "raw": "html", "code": "python", "sourcecode": "python", "code-block": "python", "highlight": "python", "role": "mvr(emphasis)", "unicode": "U+2014",
+                   "date": "%Y", "replace": "x", "class": "c", "rst-class": "c", "default-role": "emphasis", "title": "T", "meta": "", "csv-table": "T", "table": "T", "list-table": "T", "toctree": "", "only": "html", "ifconfig": "True",
+                   "tabularcolumns": "|l|", "default-domain": "py", "currentmodule": "m", "py:currentmodule": "m"}.get(dname, "name" if (dcls.required_arguments or dcls.optional_arguments) else "")
+            body = {"list-table": "* - a\n  - b", "csv-table": "a,b", "table": "| a |\n|---|", "math": "x", "meta": ":k: v", "toctree": "other", "productionlist": "a: b"}.get(dname, "body text" if getattr(dcls, "has_content", False) else "")
+            parts.append(f"```{{{dname}}} {arg}\n:{oname}: {v}\n\n{body}\n```\n")
+        case = {"kind": "sphinx", "sub": "directive-option-value", "text": "# T\n\n" + "\n".join(parts) + "\nafter OPTEND\n", "cfg": {}, "builder": "html" if (j // 6) % 3 == 0 else "dummy"}
+        eval_case(ctx, case)
+        ctx.case(("sphinx-directive-option-value", case["text"]), True)
+        ctx.count("sphinx_directive_option_value_constructs", len(parts))
+        if ctx.out_of_time():
+            break
     ns = 60 if quick else 4000
     for i in range(ns):
         sub, text = make_text(R)
